@@ -147,5 +147,15 @@ pub fn explore(roots: &[(String, Envelope)], ops: &[Op], depth: usize, on_state:
     }
     (total, acc)
 }
-pub fn roots_from(models: &[crate::refmodel::tree::M]) -> Vec<(String, Envelope)> { models.iter().map(|m| (m.show(), bind::build_route(m, if m.encode().is_some() && contains_elided(m) { bind::Route::Decode } else { bind::Route::Envelopes(0) }))).collect() }
+/// roots that already carry many assertions (so that remove / replace at depth 1 act on long sorted lists)
+pub fn rich_roots() -> Vec<(String, Envelope)> {
+    let p = pool();
+    let mut a = Envelope::new("rich");
+    for (_, x) in p.items.iter().take(6) { a = a.add_assertion_envelope(x.clone()).unwrap() }
+    let a = a.add_assertion("k1", "v1").add_assertion("k2", 2).add_assertion(known_values::NOTE, "n");
+    let mut b = Envelope::new("inner").add_assertion("q", "r").wrap_envelope();
+    for (_, x) in p.items.iter().skip(1).take(5) { b = b.add_assertion_envelope(x.clone()).unwrap() }
+    vec![("rich-9-assertions".into(), a), ("wrapped-with-5-assertions".into(), b)]
+}
+pub fn roots_from(models: &[crate::refmodel::tree::M]) -> Vec<(String, Envelope)> { let mut v: Vec<(String, Envelope)> = models.iter().map(|m| (m.show(), bind::build_route(m, if m.encode().is_some() && contains_elided(m) { bind::Route::Decode } else { bind::Route::Envelopes(0) }))).collect(); v.extend(rich_roots()); v }
 fn contains_elided(m: &crate::refmodel::tree::M) -> bool { use crate::refmodel::tree::M; match m { M::Obscured(..) => true, M::Wrapped(e) => contains_elided(e), M::Assertion(p, o) => contains_elided(p) || contains_elided(o), M::Node(s, a) => contains_elided(s) || a.iter().any(contains_elided), _ => false } }
